@@ -399,6 +399,57 @@ func scenarios() []scenario {
 				return strings.Join(ks, ";")
 			}
 	}})
+	out = append(out, scenario{"FTN: 2 x For of types that reach one TypeSchemas entry through pointers; the entry lists Types in a slice with spare capacity", func() ([]func() string, func() string) {
+		ts := map[reflect.Type]*jsonschema.Schema{
+			reflect.TypeOf(gen.MyInt(0)):  {Types: append(make([]string, 0, 4), "string", "integer")},
+			reflect.TypeOf(gen.MyStr("")): {Types: append(make([]string, 0, 8), "null", "string"), Enum: append(make([]any, 0, 4), "a", nil)},
+			reflect.TypeOf(gen.Inner{}):   {Type: "object", Required: append(make([]string, 0, 4), "x"), Properties: map[string]*jsonschema.Schema{"x": {Type: "integer"}}},
+		}
+		opts := &jsonschema.ForOptions{TypeSchemas: ts}
+		f := func(t reflect.Type) func() string {
+			return func() string {
+				s, err := jsonschema.ForType(t, opts)
+				if err != nil {
+					return "error " + err.Error()
+				}
+				b, _ := json.Marshal(s)
+				return string(b)
+			}
+		}
+		type h1 struct {
+			P *gen.MyInt
+			Q gen.MyInt
+			S *gen.MyStr
+			I *gen.Inner
+		}
+		type h2 struct {
+			L []*gen.MyInt
+			M map[string]*gen.MyStr
+			I **gen.Inner
+			Q *gen.MyInt `json:"q,omitempty"`
+		}
+		return []func() string{f(reflect.TypeOf(h1{})), f(reflect.TypeOf(&h2{}))},
+			func() string {
+				var ks []string
+				for k, v := range ts {
+					ks = append(ks, k.String()+digest(v))
+				}
+				sort.Strings(ks)
+				return strings.Join(ks, ";")
+			}
+	}})
+	out = append(out, scenario{"VDR: 2 x Validate on one Resolved whose required / dependentRequired / dependencies lists have spare capacity, each instance triggering a different dependency", func() ([]func() string, func() string) {
+		s, rs := mustResolve(`{"required":["a","b","c"],"dependentRequired":{"x":["p"],"y":["q","r","s"]},"properties":{"o":{"required":["a","b","c","d","e"],"dependentRequired":{"x":["p","q","r"],"y":["q"]}},
+			"d7":{"$ref":"http://h/d7.json"}},"$defs":{"d7":{"$schema":"http://json-schema.org/draft-07/schema#","$id":"http://h/d7.json","required":["a","b","c"],"dependencies":{"x":["p"],"y":["q","r","s"]}}}}`, nil)
+		i1 := decode(`{"a":1,"b":1,"c":1,"x":1,"p":1,"o":{"a":1,"b":1,"c":1,"d":1,"e":1,"x":1,"p":1,"q":1,"r":1},"d7":{"a":1,"b":1,"c":1,"x":1,"p":1}}`)
+		i2 := decode(`{"a":1,"b":1,"c":1,"y":1,"q":1,"r":1,"s":1,"o":{"a":1,"b":1,"c":1,"d":1,"e":1,"y":1,"q":1},"d7":{"a":1,"b":1,"c":1,"y":1,"q":1,"r":1,"s":1}}`)
+		i3 := decode(`{"a":1,"b":1,"c":1,"x":1,"o":{"a":1,"b":1,"c":1,"d":1,"e":1}}`) // invalid: x without p
+		return []func() string{
+			func() string { return verdict(rs, i1) },
+			func() string { return verdict(rs, i2) },
+			func() string { return verdict(rs, i3) },
+		}, func() string { return digest(s) + digest(i1) + digest(i2) + digest(i3) }
+	}})
 	out = append(out, scenario{"MIX: 3 x Validate on one Resolved whose root (2020-12) refers to a Loader document that declares draft-07", func() ([]func() string, func() string) {
 		s := cachedSchema(`{"$id":"http://h/root.json","prefixItems":[{"type":"integer"}],"properties":{"old":{"$ref":"old.json"},"n":{"type":"integer"}},"dependentRequired":{"n":["old"]},"unevaluatedProperties":false,"unevaluatedItems":false}`)
 		load := func(u *url.URL) (*jsonschema.Schema, error) {
@@ -518,6 +569,10 @@ func schemaDigest(s *jsonschema.Schema, depth int) any {
 				out = append(out, k, schemaDigest(x[k], depth+1))
 			}
 			out = append(out, x == nil)
+		case []string:
+			// the spare capacity belongs to the owner of the slice as well: a callee that appends to
+			// (or shifts within) a caller's slice writes there
+			out = append(out, x[:cap(x)], len(x), x == nil)
 		default:
 			if f.Kind() == reflect.Pointer && !f.IsNil() {
 				out = append(out, f.Elem().Interface())
